@@ -84,7 +84,7 @@ fn bad_utf8() -> Vec<Vec<u8>> {
 pub fn run(ctx: &Ctx) -> Report {
 	let refs = Refs::new(&ctx.root);
 	let mut total = Report::new();
-	total.rule = "W-method suite (S ∪ S·B)·Σ^{<=m}·W of the minimal reference DFA of each of the 20 types, every trace replayed against the compiled checked constructor; B = all 256 bytes (URI family) / lowest, highest and one interior scalar of every maximal interval of the reference partition (IRI family); Σ in the middle = one representative per behavioural class (or B where stated); plus all construction routes on the class-alphabet m=0 suite, all short byte strings and ill-formed UTF-8 splices for the from-bytes routes. distinct_nontrivial counts conservatively the distinct strings of the transition cover S ∪ S·B (each continued by every W suffix).".into();
+	total.rule = "W-method suite (S ∪ S·B)·Σ^{<=m}·W of the minimal reference DFA of each of the 20 types, every trace replayed against the compiled checked constructor; B = all 256 bytes (URI family) / lowest, highest and one interior scalar of every maximal interval of the reference partition (IRI family); Σ in the middle = one representative per behavioural class (or B where stated); plus all construction routes on the class-alphabet m=0 suite, all short byte strings, ill-formed UTF-8 splices for the from-bytes routes, and special scalars (Unicode white space, BOM, bidi / zero-width controls, case-mapping oddities, block boundaries) at the first, middle and last position of every state's access string. distinct_nontrivial counts conservatively the distinct strings of the transition cover S ∪ S·B (each continued by every W suffix).".into();
 	let types = validated_types();
 	let mut per_type = serde_json::Map::new();
 	for (f, k) in types {
@@ -209,6 +209,42 @@ pub fn run(ctx: &Ctx) -> Report {
 			total.count("ill_formed_utf8_splices", r.traces);
 			total.merge(r);
 		}
+		// special scalars (white space that trim() strips, BOM, zero-width and bidi controls, case-mapping
+		// oddities, first/last scalar of every ucschar / iprivate block and their neighbours) in first,
+		// middle and last position of the access string of every state, through EVERY route
+		if !bt {
+			let specials = crate::model::domains::boundary_and_special_scalars();
+			let r = run_shards(ctx, 16, |si| {
+				let mut r = Report::new();
+				let mut vs = Vec::new();
+				let mut buf = Vec::new();
+				for (ai, (acc, _)) in suite.access.iter().enumerate() {
+					if ai % 16 != si {
+						continue;
+					}
+					syms_to_bytes(acc, bt, &mut buf);
+					let base = String::from_utf8(buf.clone()).unwrap();
+					let mid = base.char_indices().map(|(i, _)| i).nth(base.chars().count() / 2).unwrap_or(0);
+					for x in &specials {
+						let mut cands = vec![format!("{x}{base}"), format!("{base}{x}")];
+						if mid > 0 {
+							cands.push(format!("{}{x}{}", &base[..mid], &base[mid..]));
+						}
+						for t in cands {
+							let expect = ref_valid(&d, f, k, t.as_bytes());
+							r.evaluations += check_routes(f, k, t.as_bytes(), expect, &mut vs);
+							r.traces += 1;
+							for v in vs.drain(..) {
+								r.violate(v);
+							}
+						}
+					}
+				}
+				r
+			});
+			total.count("special_scalar_route_strings", r.traces);
+			total.merge(r);
+		}
 		if (f, k) == (Family::Iri, Kind::Ri) || (f, k) == (Family::Iri, Kind::RiRef) || (bt && n_states <= 4) {
 			// every byte string of length <= L through every route
 			let l = ctx.pick(2usize, 3usize);
@@ -329,6 +365,21 @@ pub fn run(ctx: &Ctx) -> Report {
 			r
 		});
 		total.count("cross_type_route_inputs", r.traces);
+		total.merge(r);
+		let fr_iri = FamRefs::new(refs, Family::Iri);
+		let mut r = Report::new();
+		let mut vs = Vec::new();
+		for t in domains::special_scalar_texts() {
+			if !fr_iri.valid(Kind::RiRef, &t) {
+				continue;
+			}
+			r.traces += 1;
+			r.evaluations += super::c13::conv_case_for("C01", &t, fr_uri.valid(Kind::Ri, &t), fr_uri.valid(Kind::RiRef, &t), syntax::split(&t).scheme.is_some(), &mut vs);
+			for v in vs.drain(..) {
+				r.violate(v);
+			}
+		}
+		total.count("cross_type_special_scalar_inputs", r.traces);
 		total.merge(r);
 	}
 	total.info.insert("per_type".into(), Value::Object(per_type));
